@@ -65,6 +65,7 @@ func buildRaceChild(c *checker) (string, bool) {
 	cmd.Env = goEnv("CGO_ENABLED=0")
 	if outp, err := cmd.CombinedOutput(); err != nil {
 		fmt.Fprintf(os.Stderr, "protocheck: cannot build the stress child: %v\n%s\n", err, outp)
+		cleanupAll()
 		os.Exit(3)
 	}
 	return bin, false
